@@ -21,7 +21,8 @@ FAST = {"JAVA_TOOL_OPTIONS": "-Xss64m -XX:TieredStopAtLevel=1"}     # short TLC 
 PROP = "C12"
 DEVS = [("F2", "Final"), ("NoLastEdge", "Final"), ("TableTypo", "Final"), ("TermSwap", "Final"), ("NoCircLabel", "Final"),
         ("CircStrip", "Final"), ("TreeHeight", "Final"), ("TreePath", "Final"), ("ConnOff", "Final"), ("ConnWrongInst", "Shape"),
-        ("TerDeg0", "Final"), ("LabelSkipFirst", "Final"), ("ReadDropsLabels", "Final")]
+        ("TerDeg0", "Final"), ("LabelSkipFirst", "Final"), ("ReadDropsLabels", "Final"),
+        ("TitleAsSeq", "Final"), ("FileNoEdges", "Final"), ("FileConnByResid", "Shape")]
 ACTS = ["AddMacro", "AddConnect", "ModTer", "Label", "Write", "ReadBack"]
 
 
@@ -176,19 +177,21 @@ def gen_inputs(ntr, sd, big):
     inps = []
     names_pool = ["PEO", "PS", "A", "N1", "P3HT", "GLY", "DA5", "X1"]
     alph = {"DNA": "ACGT", "RNA": "ACGT", "PROTEIN": u.AA}
+    titles = ["title", "seqA", "my_plasmid", "GATTACA", "TATA", "CAT", "ACTA", "G", "chr7 region", "T4 lysozyme"]
     for t in range(ntr):
         r = t % 6
         if r in (0, 1, 2):
             n = rng.randint(5, 400 if big else 120)
             if r == 0:
                 inps.append({"fam": "file", "fmt": "txt", "kind": "NAMES", "toks": [rng.choice(names_pool) for _ in range(n)],
-                             "lines": _rand_comp(rng, n, 12), "circ": False, "terOwn": False, "nl": rng.random() < 0.5})
+                             "lines": _rand_comp(rng, n, 12), "circ": False, "terOwn": False, "nl": rng.random() < 0.5, "title": []})
             else:
                 kind = rng.choice(["DNA", "RNA", "PROTEIN"])
                 fmt = "fasta" if r == 1 else "ig"
                 inps.append({"fam": "file", "fmt": fmt, "kind": kind, "toks": [rng.choice(alph[kind]) for _ in range(n)],
                              "lines": _rand_comp(rng, n, 60), "circ": fmt == "ig" and rng.random() < 0.5,
-                             "terOwn": fmt == "ig" and rng.random() < 0.3, "nl": rng.random() < 0.7})
+                             "terOwn": fmt == "ig" and rng.random() < 0.3, "nl": rng.random() < 0.7,
+                             "title": list(rng.choice(titles)) if fmt == "ig" else []})
         elif r == 3:
             inps.append({"fam": "seqlist", "blocks": [{"name": rng.choice(names_pool), "cnt": rng.randint(1, 40)}
                                                       for _ in range(rng.randint(1, 8))]})
@@ -220,9 +223,20 @@ def _rand_genseq(rng):
                 break
         if rng.random() < 0.3:
             lev, br = rng.randint(4, 30), 1
-        defs[nm] = {"lev": lev, "br": br, "res": "R" + nm}
-    size = {nm: sum(d["br"] ** l for l in range(d["lev"])) for nm, d in defs.items()}
+        defs[nm] = {"kind": "str", "lev": lev, "br": br, "res": "R" + nm}
+    if rng.random() < 0.6:
+        # a macro taken from an itp file: random tree of 2-12 residues, residue numbers of the file start anywhere, with gaps
+        nres = rng.randint(2, 12)
+        rid, resids = rng.randint(1, 30), []
+        for _ in range(nres):
+            resids.append(rid)
+            rid += rng.choice([1, 1, 1, 2, 5])
+        defs["F"] = {"kind": "file", "names": [rng.choice(["GLY", "ALA", "SER", "LYS", "PEO"]) for _ in range(nres)], "resids": resids,
+                     "bonds": [[rng.randint(1, b - 1), b] for b in range(2, nres + 1)]}
+    size = {nm: (len(d["names"]) if d["kind"] == "file" else sum(d["br"] ** l for l in range(d["lev"]))) for nm, d in defs.items()}
     seq = [rng.choice(sorted(defs)) for _ in range(rng.randint(1, 6))]
+    if "F" in defs and "F" not in seq:
+        seq.insert(rng.randint(0, len(seq)), "F")
     connects = []
     for _ in range(rng.randint(0, 6)):
         i, j = rng.randrange(len(seq)), rng.randrange(len(seq))
@@ -371,7 +385,12 @@ def run(tier):
           "terminal_name_left_open": sum(1 for x in fcases + icases if u._seq(x["free"])),
           "gen_seq_two_connect_records": sum(1 for x in gcases if len(u._seq(x["inp"]["connects"])) == 2),
           "gen_seq_renamed_and_labelled": sum(1 for x in gcases if u._seq(x["inp"]["ends"]) and u._seq(x["inp"]["labels"])),
-          "gen_seq_three_instances": sum(1 for x in gcases if len(x["inp"]["seq"]) == 3)}
+          "gen_seq_three_instances": sum(1 for x in gcases if len(x["inp"]["seq"]) == 3),
+          "ig_title_only_ACGT": sum(1 for x in icases if set(x["inp"]["title"]) <= set("ACGT")),
+          "file_macro_not_first_or_twice": sum(1 for x in gcases if any(d.get("kind") == "file" for d in x["inp"]["defs"].values())
+                                               and (x["inp"]["seq"][0] != "F" or list(x["inp"]["seq"]).count("F") > 1)),
+          "file_macro_itp_resids_not_from_1": sum(1 for x in gcases if any(d.get("kind") == "file" and list(d["resids"]) != [1, 2, 3]
+                                                                             for d in x["inp"]["defs"].values()))}
     if not all(nv.values()):
         raise c.MachineryError("vacuous instance: %s" % nv)
     ck.extra["instance_corners"] = nv
